@@ -810,11 +810,16 @@ func (root *Root) replaceArgRefs(args *argList) (err error) {
 func (root *Root) replaceDirRefs(dirs []*DirectiveUse) (err error) {
 	for _, du := range dirs {
 		t := du.Directive
-		// Just check for *Ref. Any others will be rejected later in validation.
-		if tt, _ := t.(*Ref); tt != nil {
-			if du.Directive = root.dirs.get(t.Name()); du.Directive == nil {
-				return fmt.Errorf("%w error, '%s' not defined at %d:%d", ErrValidation, t.Name(), du.line, du.col)
-			}
+		if _, ok := t.(*Directive); ok {
+			continue
+		}
+		// A reference or, as the parser looks a name up in the types first,
+		// a type that has the name of the directive. Anything that is not a
+		// directive after this is rejected later in validation.
+		if d := root.dirs.get(t.Name()); d != nil {
+			du.Directive = d
+		} else if _, ok := t.(*Ref); ok {
+			return fmt.Errorf("%w error, '%s' not defined at %d:%d", ErrValidation, t.Name(), du.line, du.col)
 		}
 	}
 	return
